@@ -80,7 +80,7 @@ func c07Build(p c07Case) *h.Scenario {
 			var ev []h.Event
 			for _, n := range groupNodes(hh, g, 8) {
 				if _, tainted := h.HasTaint(n, h.TaintKey); tainted {
-					ev = append(ev, evRejectNode(n.Name))
+					ev = append(ev, evRejectNode(n.Name), evVanishFromStore(n.Name))
 				}
 			}
 			return ev
@@ -186,8 +186,36 @@ func c07Cases(tier string) []c07Case {
 	return out
 }
 
+// c07Rebuild: several scale-ups in a row (cool-down of one scan) with the provider rebuilt after a
+// failed refresh in between: every request must be computed on the live desired size.
+func c07Rebuild(fleet bool) *h.Scenario {
+	g := StdGroup("g1")
+	g.Opts.MaxNodes = 12
+	g.ASG.Max = 12
+	g.Opts.ScaleUpCoolDownPeriod = dur(1)
+	name := "c07.rebuild.setdesired"
+	if fleet {
+		g.Opts.AWS.LaunchTemplateID, g.Opts.AWS.LaunchTemplateVersion = "lt-1", "1"
+		name = "c07.rebuild.fleet"
+	}
+	return &h.Scenario{Name: name, Groups: []h.GroupSpec{g}, Slots: 5, Quantum: Q, MaxEventsPerSlot: 2, BoundExact: 2, Prune: true,
+		Init: func(hh *h.Hist) {
+			a := InitASGs(hh)[0]
+			for i := 0; i < 2; i++ {
+				n := hh.W.AddNode(a, sim.NodeOpt{Age: time.Duration(10+i) * Q})
+				hh.W.AddPod(podOn(g, n.Name, 800))
+			}
+			hh.W.AddNode(a, sim.NodeOpt{Age: 30 * Q, TaintAge: dp(0)})
+			hh.W.AddPod(podOn(g, "", 1000))
+		},
+		Events: func(hh *h.Hist, slot int) []h.Event {
+			return []h.Event{evRefreshFails(), evBurst(g, 2, 1000), evBurst(g, 1, 700), evSkipSettle(), evRestart()}
+		},
+	}
+}
+
 func C07Scenarios(tier string) []*h.Scenario {
-	var out []*h.Scenario
+	out := []*h.Scenario{c07Rebuild(false), c07Rebuild(true)}
 	for _, p := range c07Cases(tier) {
 		out = append(out, c07Build(p))
 	}
